@@ -5,12 +5,14 @@
    leader appends / replication with any split / conflicting suffixes /
    in-flight damage; DeleteRange = head and tail truncations; restarts;
    at-rest tampering; verifier steps).  [node_store] is the StoreLogs that
-   carries the checkpoint(s); [n_shadow nd'] is what the node wrote and still
-   holds (= its store when nothing was tampered with at rest, see
-   C16_shadow_is_store); [sv] is the store at the moment the verifier goroutine
+   carries the checkpoint(s); [n_shadow nd'] is the log as the node WROTE it
+   (never tampered; tail truncations applied; head truncations = compaction do
+   not erase it, exactly as they do not touch the running sum since 8c5a9f9;
+   without at-rest tampering the store is its suffix from FirstIndex on, see
+   C16_store_is_suffix_of_written); [sv] is the store at the moment the verifier goroutine
    reads the range (any later store: "ranges not modified while their
    verification runs" is the hypothesis that sv still holds L). *)
-From RW Require Import Base.Bytes Vfy.Checksum Vfy.Spec Vfy.Store Vfy.VerifChan Vfy.Nodes
+From RW Require Import Base.Bytes Vfy.Checksum Vfy.Spec Vfy.SpecFacts Vfy.Store Vfy.VerifChan Vfy.Nodes
   Vfy.StoreFacts Vfy.NodesFacts.
 Open Scope N_scope.
 
@@ -68,12 +70,13 @@ Theorem C16_written_sum :
 Proof. exact report_written. Qed.
 Print Assumptions C16_written_sum.
 
-Theorem C16_shadow_is_store :
+Theorem C16_store_is_suffix_of_written :
   forall cpf h k n,
     forallb (fun ev => negb (is_tamper ev)) h = true ->
-    n_shadow (node_at (run cpf (sys_init k) h) n) = n_store (node_at (run cpf (sys_init k) h) n).
-Proof. exact no_tamper_shadow. Qed.
-Print Assumptions C16_shadow_is_store.
+    suffix_of (n_store (node_at (run cpf (sys_init k) h) n))
+              (n_shadow (node_at (run cpf (sys_init k) h) n)).
+Proof. exact no_tamper_suffix. Qed.
+Print Assumptions C16_store_is_suffix_of_written.
 
 (* ---- non-vacuity ------------------------------------------------------------ *)
 Definition ex_cpf (e : entry) : option bool :=
@@ -140,3 +143,47 @@ Example C16_ex_range_mismatch :
   | None => False
   end.
 Proof. vm_compute. split; reflexivity. Qed.
+
+(* compaction below the range does NOT restart the sum (since 8c5a9f9 only tail
+   truncations do): the leader's next range still starts at the previous
+   checkpoint, the follower still claims its written sum, nobody raises an alarm *)
+Example C16_ex_head_truncation_no_reset :
+  let st := run ex_cpf (sys_init 2)
+              [HStore 0 [ex_e 1 97; ex_e 2 98]; HStore 0 [ex_e 3 192]; HSend 0;
+               HStore 0 [ex_e 4 99; ex_e 5 100]; HDelete 0 1 2] in
+  match node_store ex_cpf (node_at st 0) [ex_e 6 192] with
+  | (SOk, ld, [rl]) =>
+      r_start rl = 3 /\ r_err (verify (n_store ld) rl) = ENone /\
+      match get (n_store (node_at st 0)) 3, get (n_store ld) 6 with
+      | Some cp3, Some cp6 =>
+          let st1 := run ex_cpf (sys_init 2)
+                       [HStore 1 [ex_e 1 97; ex_e 2 98; cp3]; HSend 1; HStore 1 [ex_e 4 99]; HDelete 1 1 2;
+                        HStore 1 [ex_e 5 100]] in
+          match node_store ex_cpf (node_at st1 1) [cp6] with
+          | (SOk, fd, [rf]) => r_written rf <> 0 /\ r_written rf = r_expected rf /\
+                               r_err (verify (n_store fd) rf) = ENone
+          | _ => False
+          end
+      | _, _ => False
+      end
+  | _ => False
+  end.
+Proof. vm_compute. repeat split; try reflexivity; try discriminate; try (intros C; discriminate C). Qed.
+
+(* compaction INTO the range: the written sum is still claimed (and equals the
+   leader's, the node wrote the entries correctly), the verdict is ErrRangeMismatch *)
+Example C16_ex_head_truncation_into_range :
+  let st := run ex_cpf (sys_init 2)
+              [HStore 0 [ex_e 1 97; ex_e 2 98]; HStore 0 [ex_e 3 192];
+               HStore 1 [ex_e 1 97; ex_e 2 98]; HDelete 1 1 1] in
+  match get (n_store (node_at st 0)) 3 with
+  | Some cp =>
+      match node_store ex_cpf (node_at st 1) [cp] with
+      | (SOk, nd', [r]) => r_written r = r_expected r /\ r_written r <> 0 /\
+                           holds_range (n_shadow nd') (r_start r) (r_end r) /\
+                           r_err (verify (n_store nd') r) = ERange
+      | _ => False
+      end
+  | None => False
+  end.
+Proof. vm_compute. repeat split; try reflexivity; try discriminate; try (intros C; discriminate C). Qed.
